@@ -3,11 +3,11 @@
 package main
 
 import (
-	"crypto/rand"
-	"crypto/ed25519"
-	"crypto/ecdsa"
 	"bytes"
 	"crypto"
+	"crypto/ecdsa"
+	"crypto/ed25519"
+	"crypto/rand"
 	"crypto/rsa"
 	"crypto/sha1"
 	"crypto/sha256"
